@@ -1,15 +1,11 @@
 package drivers
 
 import (
-	"bufio"
-	"bytes"
 	"context"
 	"encoding/binary"
 	"encoding/json"
 	"fmt"
 	"math/rand"
-	"os"
-	"os/exec"
 	"sort"
 	"strings"
 	"sync"
@@ -747,141 +743,14 @@ func genCliCase(r *rand.Rand) *CliCase {
 // a "crashed" case and carries on with the next one.
 // ---------------------------------------------------------------------------
 
-type cliChildLine struct {
-	Idx int      `json:"idx"`
-	Evs []sim.Ev `json:"evs"`
-}
-
 func TestClientChild(t *testing.T) {
-	in := os.Getenv("VERIF_CLI_CASES")
-	if in == "" {
-		t.Skip("child of TestClient")
-	}
-	var cases []*CliCase
-	if err := readJSON(in, &cases); err != nil {
-		t.Fatal(err)
-	}
-	var from, step, off int
-	fmt.Sscanf(os.Getenv("VERIF_CLI_SLICE"), "%d,%d,%d", &from, &step, &off)
-	f, err := os.OpenFile(os.Getenv("VERIF_CLI_RESULTS"), os.O_CREATE|os.O_WRONLY|os.O_APPEND, 0o644)
-	if err != nil {
-		t.Fatal(err)
-	}
-	defer f.Close()
-	for i := from; i < len(cases); i++ {
-		if i%step != off {
-			continue
+	childMain(t, func(idx int, raw json.RawMessage) any {
+		var sc CliCase
+		if err := json.Unmarshal(raw, &sc); err != nil {
+			t.Fatal(err)
 		}
-		_ = os.WriteFile(os.Getenv("VERIF_CLI_RESULTS")+".cur", []byte(fmt.Sprint(i)), 0o644)
-		evs := runCliCase(t, cases[i])
-		b, _ := json.Marshal(cliChildLine{Idx: i, Evs: evs})
-		f.Write(append(b, '\n'))
-	}
-}
-
-// runCliChildren runs all cases in `workers` child processes and returns the events per case.
-func runCliChildren(t *testing.T, e Env, cases []*CliCase, workers int) [][]sim.Ev {
-	casesPath := e.Out + ".cases.json"
-	if err := writeJSON(casesPath, cases); err != nil {
-		t.Fatal(err)
-	}
-	results := make([][]sim.Ev, len(cases))
-	var wg sync.WaitGroup
-	var mu sync.Mutex
-	for w := 0; w < workers; w++ {
-		wg.Add(1)
-		go func(w int) {
-			defer wg.Done()
-			resPath := fmt.Sprintf("%s.child%d.ndjson", e.Out, w)
-			from := 0
-			for restarts := 0; restarts < 400; restarts++ {
-				os.Remove(resPath)
-				os.Remove(resPath + ".cur")
-				cmd := exec.Command(os.Args[0], "-test.run", "^TestClientChild$", "-test.count=1", "-test.timeout=90m")
-				cmd.Env = append(os.Environ(), "VERIF_CLI_CASES="+casesPath, "VERIF_CLI_RESULTS="+resPath,
-					fmt.Sprintf("VERIF_CLI_SLICE=%d,%d,%d", from, workers, w))
-				var stderr bytes.Buffer
-				cmd.Stdout = &stderr
-				cmd.Stderr = &stderr
-				runErr := cmd.Run()
-				last := -1
-				if f, err := os.Open(resPath); err == nil {
-					sc := bufio.NewScanner(f)
-					sc.Buffer(make([]byte, 1<<20), 1<<28)
-					for sc.Scan() {
-						var l cliChildLine
-						if json.Unmarshal(sc.Bytes(), &l) == nil {
-							mu.Lock()
-							results[l.Idx] = l.Evs
-							mu.Unlock()
-							last = l.Idx
-						}
-					}
-					f.Close()
-				}
-				if runErr == nil {
-					return
-				}
-				// the child died: the case it was working on is the one in .cur
-				cur := -1
-				if b, err := os.ReadFile(resPath + ".cur"); err == nil {
-					fmt.Sscanf(string(b), "%d", &cur)
-				}
-				if cur < 0 || cur <= last {
-					t.Errorf("client child %d died outside a case: %v\n%s", w, runErr, tail(stderr.String(), 2000))
-					return
-				}
-				ev := cliBaseEv(cases[cur])
-				ev["crashed"] = true
-				ev["panic"] = crashLine(stderr.String())
-				mu.Lock()
-				results[cur] = []sim.Ev{{"e": "Reset", "ts": 0}, ev, {"e": "End"}}
-				mu.Unlock()
-				from = cur + 1
-			}
-		}(w)
-	}
-	wg.Wait()
-	for w := 0; w < workers; w++ {
-		os.Remove(fmt.Sprintf("%s.child%d.ndjson", e.Out, w))
-		os.Remove(fmt.Sprintf("%s.child%d.ndjson.cur", e.Out, w))
-	}
-	return results
-}
-
-func tail(s string, n int) string {
-	if len(s) > n {
-		return s[len(s)-n:]
-	}
-	return s
-}
-
-// crashLine extracts the panic message and the first library frame from a dead child's output.
-func crashLine(s string) string {
-	lines := strings.Split(s, "\n")
-	msg := ""
-	for i, l := range lines {
-		if strings.HasPrefix(l, "panic:") || strings.HasPrefix(l, "fatal error:") {
-			msg = l
-			for _, m := range lines[i:] {
-				if (strings.Contains(m, "go-libp2p-kad-dht") || strings.HasPrefix(strings.TrimSpace(m), "/repo/")) && strings.Contains(m, ".go:") {
-					f := strings.TrimSpace(m)
-					if j := strings.LastIndex(f, "/"); j >= 0 {
-						f = f[j+1:]
-					}
-					if k := strings.Index(f, " "); k >= 0 {
-						f = f[:k]
-					}
-					return msg + " @ " + f
-				}
-			}
-			break
-		}
-	}
-	if msg == "" {
-		msg = "child process died: " + tail(strings.TrimSpace(s), 200)
-	}
-	return msg
+		return runCliCase(t, &sc)
+	})
 }
 
 func TestClient(t *testing.T) {
@@ -913,13 +782,15 @@ func TestClient(t *testing.T) {
 		}
 	}
 	workers := 12
-	if len(cases) < workers {
-		workers = len(cases)
-	}
-	results := runCliChildren(t, e, cases, workers)
-	os.Remove(e.Out + ".cases.json")
-	for i, evs := range results {
-		if evs == nil {
+	results := runChildren(t, e, "TestClientChild", cases, len(cases), workers, func(idx int, output string) any {
+		ev := cliBaseEv(cases[idx])
+		ev["crashed"] = true
+		ev["panic"] = crashLine(output)
+		return []sim.Ev{{"e": "Reset", "ts": 0}, ev, {"e": "End"}}
+	})
+	for i, raw := range results {
+		var evs []sim.Ev
+		if raw == nil || json.Unmarshal(raw, &evs) != nil || evs == nil {
 			rec.Problem(fmt.Sprintf("case %d produced no result", i))
 			continue
 		}
